@@ -1687,6 +1687,10 @@ impl VirtualFileSystem for Memfs {
             let src_entry = if let Some(mut dst_entry) = guard.remove_entry(&src_path) {
                 let src_entry = dst_entry.clone();
                 dst_entry.path.clone_from(&dst_path);
+                if dst_entry.link {
+                    // keep the relative target in line with the link's new location
+                    dst_entry.rel = dst_entry.alt.relative(dst_path.dir()?)?;
+                }
                 guard.insert_entry(dst_path.clone(), dst_entry);
                 src_entry
             } else {
